@@ -71,7 +71,8 @@ class C19(Prop):
     coq_files = ("Base", "C19_Consts", "C19_Model", "C19_Spec", "C19_Proofs", "C19_StreamProofs", "C19_Props")
     models = ("C19_Model",)
     packages = {"cc": "internal/app/connectconformance"}
-    kinds = {"c19.expand": "cc", "c19.sharp": "cc", "c19.wiring": "cc", "c19.stream": "cc", "c19.load": "cc"}
+    kinds = {"c19.expand": "cc", "c19.sharp": "cc", "c19.wiring": "cc", "c19.stream": "cc", "c19.load": "cc",
+             "c19.client_seq": "cc"}
     consts = ("cc",)
     go_timeout = 1500
     rule = ("c19.expand: expandRequestData on single requests of the five padded request types x response-definition sizes "
@@ -103,6 +104,9 @@ class C19(Prop):
             "Fourth wave: c19.sharp / c19.stream client-side cases run under BOTH codecs (responses sized so that their JSON "
             "encoding has limit-1 / limit / limit+1 bytes); c19.stream client streams whose FIRST request carries an error "
             "definition with a later message at limit+1 (outcome must be resource_exhausted); c19.expand offsets of +1 .. +16 MiB. "
+            "Fifth wave: c19.client_seq - histories of 3-14 requests through ONE in-process reference client, every request with its own "
+            "message_receive_limit (1 KiB / random small / 1 MiB / 3 MiB / none, ascending, descending, interleaved, neighbouring), responses of "
+            "limit-1 / limit / limit+1 bytes from the exact-size handler; compared per request: limit, size, verdict. "
             "non-trivial = padding changed, an error class other than range, an RPC verdict, or a suite with a directive")
     trusted_base = ("Coq 8.16.1 kernel (vm_compute used, native_compute not)", "extraction (ExtrOcamlBasic only) + ocaml/driver.ml",
                     "vlib generators/comparator, Go overlay harness files (build the request messages, classify error texts into 4 tags, "
@@ -130,7 +134,11 @@ class C19(Prop):
                   "Fourth wave: the reference client's option set-up is a model function of the codec, proved to install the documented chain for "
                   "EVERY codec (client_limit_any_codec) and run live under proto and JSON; the reference server's ClientStream handler is modelled "
                   "(receive error first, then the response definition) with receive_error_comes_first, run live with error definitions; the padding "
-                  "source of the loop is explicit (unbounded_source_is_expand, bounded_source_rejects_reachable) and offsets up to +16 MiB are executed.")
+                  "source of the loop is explicit (unbounded_source_is_expand, bounded_source_rejects_reachable) and offsets up to +16 MiB are executed. "
+                  "Fifth wave: a client process serving a HISTORY of requests is in the model (client_process); proved that the outcome of a request "
+                  "inside any history is its outcome alone (client_limit_is_per_request, client_history_irrelevant) and sharp at ITS OWN limit "
+                  "(client_seq_sharp_at_own_limit); c19.client_seq runs histories of requests with >= 3 distinct limits (small, default, large, none, "
+                  "both orders, each at the limit and one byte more) through one in-process reference client on every check.")
     level_note = ("Trusted: Coq kernel, extraction, OCaml driver, harness. Correspondence model/Go is sampled (windows around every "
                   "boundary), not proved. limit_sharp (`accepts`) is a specification that execution is compared with, not a theorem about "
                   "connect-go. Known finding wire-size-also-limited: connect-go applies the limit to the compressed envelope as well, so "
@@ -143,11 +151,13 @@ class C19(Prop):
                   "packages): a bound installed by other means shows only in the live streams of 4-16 messages. Under JSON the size the limit "
                   "applies to is the JSON text as connect-go's codec encodes it (computed in the harness with the same protojson call in the same "
                   "binary). Client streams with an error definition are sent by the plain HTTP senders only (the error response echoes every "
-                  "request and exceeds the reference client's own limit).")
+                  "request and exceeds the reference client's own limit). The histories of c19.client_seq go through the in-process reference client "
+                  "(run loop + invoke, one process-wide state shared with every other client-side case), not through a separately started binary; "
+                  "limits above 16 MiB and histories longer than 32 requests are not executed.")
     technique = "Coq proof (fixed-point iteration on a step function, case split on varint classes); differential model-vs-Go; live RPC spec comparison"
 
     def nontrivial(self, case, res):
-        if case[0] in ("c19.sharp", "c19.wiring", "c19.stream"):
+        if case[0] in ("c19.sharp", "c19.wiring", "c19.stream", "c19.client_seq"):
             return res.startswith("(") and "657272" not in res
         if case[0] == "c19.load":
             return res.startswith("(") and any(len(tc[2]) > 0 for tc in case[4])
@@ -176,6 +186,9 @@ class C19(Prop):
         if case[0] == "c19.load":
             return ("parseTestSuites: a test case marked for expansion is neither expanded exactly as directed nor is the suite "
                     "rejected for a justified reason (whatever the suite's other directives)")
+        if case[0] == "c19.client_seq":
+            return ("the reference client does not hold every request to ITS OWN message_receive_limit: within one client process a "
+                    "request's responses are accepted / rejected by something other than that request's limit (size <= limit)")
         if case[0] == "c19.sharp":
             return "receive limit not sharp: live reference peers disagree with the specification accepts(limit, size) = size <= limit"
         return "expandRequestData differs from the proved model (exact padding or justified rejection, never a crash)"
@@ -566,6 +579,41 @@ class C19(Prop):
                               rng.choice(SHAPES[:7] * 4 + SHAPES[7:])) for _ in range(rng.randint(2, 4))]
             codecs = rng.choice([[1]] * 8 + [[1, 2], []])
             yield ["c19.load", rng.randrange(2), rng.randrange(3), codecs, cases]
+
+        # ---- fifth wave: a HISTORY of requests through ONE client process, every request with its own limit ----
+        # case: ((limit off streamType)...) httpVersion protocol compression codec; limit 0 = none (size = off)
+        D = lim["client"]
+        BIG = 3 * MiB
+
+        def pair(l, st=None):                    # exactly the limit, then one byte more
+            return [[l, 0, st or rng.choice((1, 3))], [l, 1, st or rng.choice((1, 3))]]
+
+        def seqs():
+            s1, s2, s3 = rng.sample(range(64, 4096), 3)
+            small = 1024
+            yield pair(small) + pair(D) + pair(BIG)                                   # small, default, large
+            yield pair(BIG) + pair(D) + pair(small)                                   # ... and the reverse
+            yield pair(D) + pair(s1) + pair(BIG) + pair(s1)                           # the runner's limit first
+            yield [[0, D + 1, 1]] + pair(s2) + pair(BIG) + [[0, BIG + 1, 3]] + pair(D)  # no limit first, then limits
+            yield [[s3, 1, 1], [BIG, 0, 3], [s3, 0, 3], [D, 1, 1], [0, D + 1, 1], [s3, 1, 3], [D, 0, 1], [s3, -1, 1]]
+            yield pair(s1, 1) + pair(s1 + 1, 1) + pair(s1 - 1, 1)                     # neighbouring limits
+            for _ in range(4 if quick else 60):
+                pool = [rng.randrange(64, 1 << rng.randrange(8, 22)) for _ in range(3)] + [D, BIG, small]
+                reqs = [[rng.choice(pool), rng.choice((-1, 0, 0, 1, 1)), rng.choice((1, 3))] for _ in range(rng.randrange(4, 9))]
+                if len({r[0] for r in reqs}) < 3:
+                    reqs += pair(s2) + pair(D) + pair(BIG)
+                yield reqs
+
+        ccfg = [(2, 1, 1, 1), (2, 2, 1, 1), (2, 3, 2, 1), (1, 1, 1, 1), (2, 1, rng.choice(COMPRESSIONS[1:]), 1),
+                (1, 3, 1, 1), (2, 2, rng.choice(COMPRESSIONS[1:]), 1)]
+        if not quick:
+            ccfg = [(hv, p, c, 1) for hv in (1, 2) for p in (1, 2, 3) for c in COMPRESSIONS if not (hv == 1 and p == 2)]
+        for i, reqs in enumerate(seqs()):
+            hv, p, c, cd = ccfg[i % len(ccfg)]
+            yield ["c19.client_seq", reqs, hv, p, c, cd]
+        # under JSON (limits from 512 up: the JSON text of the smallest response is ~100 bytes)
+        yield ["c19.client_seq", pair(2048) + pair(D) + pair(BIG) + pair(512), 2, rng.choice((1, 2, 3)), 1, 2]
+        yield ["c19.client_seq", pair(BIG) + pair(D) + pair(2048), 2, rng.choice((1, 3)), 1, 2]
 
         # ---- the runner's own path: suite file -> parseTestSuites -> library -> server_runner -> peers ----
         # case: (offs) httpVersion protocol compression streamType
